@@ -1,9 +1,15 @@
 ---------------------------- MODULE MC_ShellWords ----------------------------
 EXTENDS ShellWords
-CONSTANT MaxLen
+CONSTANTS MaxLen,
+          Alphabet     \* the symbols the enumerated words are made of: all of Syms for short words, the brace material for longer ones
 VARIABLES w
 Init == w = <<>>
-Next == Len(w) < MaxLen /\ \E s \in Syms : w' = Append(w, s)
+Next == Len(w) < MaxLen /\ \E s \in Alphabet : w' = Append(w, s)
 Spec == Init /\ [][Next]_w
+BraceSyms == {"lbrace", "rbrace", "comma", "dot", "a", "one"}
+ASSUME Alphabet \subseteq Syms
+\* a deviation to be refuted: braces do not force quoting (what `quote` would do without '{' '}' in SPECIAL_CHARS)
+NoBraceSpecial == {"sp", "tab", "dq", "bs", "dollar", "hash", "star", "eq", "sq", "semi", "smalltilde", "tilde",
+                   "pipe", "amp", "lt", "gt", "lp", "rp", "bq", "qm", "lb", "rb", "plus", "pct"}
 QuoteIsLossless == w # <<>> => Lossless(w)
 =============================================================================
